@@ -29,6 +29,10 @@ CHECKS = {
    technique="deterministic simulation: exhaustive foreign-control-field fault (all 65,536) through every real reply parser",
    text="C06's foreign-control-field fault made exhaustive: all 65,536 (class, instr) pairs x 17 reply parsers x 4 body kinds (+ all 65,536 at the acknowledgement point) in the thorough tier, alphabet neighbourhoods and 2,000 PRNG pairs per parser in the quick tier, each sent as one well-framed reply through the real transport and sequence. In the reply set and decodable by its packet type -> Ok with exactly that content; everything else -> one Err, no acknowledgement.",
    note="Trusted: reply-alphabet table; the clause about inputs shorter than two bytes cannot arise on the wire and is not covered."),
+ "C11": dict(level="exploration", engine=WIRE, ref="6 (C11)",
+   technique="deterministic simulation: seeded search over payload directories, block sizes, request scripts and I/O schedules against a reference model reading the same files",
+   text="The real WriteFile::into_stream runs over a payload directory the simulator writes per run (PRNG subset of the 21 recognised paths incl. none, unrelated files/directories, sizes around block multiples up to 200 KiB, PRNG content) against a scripted terminal whose request script covers any order, repeats, overlaps, offsets at/after end of file, unknown ids and requests lacking id / offset / container / TLV, ending in completion or abort, in lockstep/eager/paced mode under PRNG chunking and short writes. Oracle: announced list equals the recognised files present with true sizes (as a set); each request is answered by exactly one WriteData echoing id and offset with file[offset..min(offset+block,size)] byte for byte, written at the request's end offset and before the item is handed over; an invalid request yields one error and no data.",
+   note="Trusted: harness copy of the path->id table; real files on tmpfs without disk faults (no seam in WriteFile); reference TLV codec."),
 }
 
 NOT_APPLICABLE = {
@@ -41,7 +45,7 @@ NOT_APPLICABLE = {
  "C17": "pure scalar/text/tag encodings; no schedule, time, fault or interleaving to simulate (DESIGN 7)",
 }
 
-PENDING = {k: "not claimed yet: the simulated check for this property is still being built (see DESIGN.md section 6)" for k in ["C07","C08","C09","C10","C11","C18","C19","C20"]}  # checks not built yet
+PENDING = {k: "not claimed yet: the simulated check for this property is still being built (see DESIGN.md section 6)" for k in ["C07","C08","C09","C10","C18","C19","C20"]}  # checks not built yet
 
 def main():
     checks = []
